@@ -531,13 +531,19 @@ pub type InlineTableIterMut<'a> = Box<dyn Iterator<Item = (KeyMut<'a>, &'a mut V
 
 impl TableLike for InlineTable {
     fn iter(&self) -> Iter<'_> {
-        Box::new(self.items.iter().map(|(key, value)| (key.get(), value)))
+        Box::new(
+            self.items
+                .iter()
+                .filter(|(_, value)| !value.is_none())
+                .map(|(key, value)| (key.get(), value)),
+        )
     }
     fn iter_mut(&mut self) -> IterMut<'_> {
         use indexmap::map::MutableKeys;
         Box::new(
             self.items
                 .iter_mut2()
+                .filter(|(_, value)| !value.is_none())
                 .map(|(key, value)| (key.as_mut(), value)),
         )
     }
@@ -567,10 +573,10 @@ impl TableLike for InlineTable {
         }
     }
     fn get<'s>(&'s self, key: &str) -> Option<&'s Item> {
-        self.items.get(key)
+        self.items.get(key).filter(|value| !value.is_none())
     }
     fn get_mut<'s>(&'s mut self, key: &str) -> Option<&'s mut Item> {
-        self.items.get_mut(key)
+        self.items.get_mut(key).filter(|value| !value.is_none())
     }
     fn get_key_value<'a>(&'a self, key: &str) -> Option<(&'a Key, &'a Item)> {
         self.get_key_value(key)
